@@ -1,6 +1,7 @@
 """C20 — Braille highlighting and cursor routing are safe and side-effect free (DESIGN.md §3 C20)."""
 from checks import braille_kernels as bk
 from framework import mcprobe
+import prelude
 
 
 def build(run):
@@ -28,6 +29,8 @@ def build(run):
     run.kani(c, lemmas)
     crate_d, lemma_d = restore_lemma(run)
     run.kani(crate_d, [lemma_d])
+    crate_e, lemmas_e = positions_lemma(run)
+    run.kani(crate_e, lemmas_e, timeout=600)
 
 
 # ======================================================================================================================
@@ -111,3 +114,52 @@ def restore_lemma(run):
                        role=lambda v, o: "pref-not-restored" if "left at EndPoints" in o else "panic-or-offset",
                        covers=["successful query reachable", "failing search reachable"],
                        claim="Ok exit => BrailleNavHighlight has the value it had before the call; no unwrap / subtraction panic under the search contract")
+
+
+# ======================================================================================================================
+# K-C20-e: highlight_braille_chars reports positions inside the braille string that agree with the cells carrying dots 7-8
+HBC_HARNESS = r'''
+fn cells(s: &str) -> usize { let mut n = 0; for _c in s.chars() { n += 1; } n }
+fn check(braille: &str, code: &str, fill: bool) {
+    let n = cells(braille);
+    let mut first = n; let mut last = 0; let mut k = 0;
+    for c in braille.chars() { if ((c as u32) & 0xC0) == 0xC0 && (c as u32) >= 0x2800 { if first == n { first = k; } last = k; } k += 1; }
+    let (out, start, end) = highlight_braille_chars(braille.to_string(), code, fill);
+    assert!(start <= end && end <= n, "highlight positions are not inside the braille string (start <= end <= length in cells)");
+    assert!(cells(&out) == n, "highlighting changed the number of cells");
+    if first == n { assert!(start == 0 && end == n, "nothing highlighted: the whole string must be reported"); }
+    else { assert!(end == last && start <= first, "reported end is not the last highlighted cell / start lies after the first highlighted cell"); }
+    core::mem::forget(out);
+}
+HBC_CASES
+// str::find / rfind with the fn-item pattern `is_highlighted` (zero-sized): scan chars
+#[cfg(kani)] fn hl_find<P>(s: &str, _p: P) -> Option<usize> { let mut i = 0; for c in s.chars() { if is_highlighted(c) { return Some(i); } i += c.len_utf8(); } None }
+#[cfg(kani)] fn hl_rfind<P>(s: &str, _p: P) -> Option<usize> { let mut i = 0; let mut r = None; for c in s.chars() { if is_highlighted(c) { r = Some(i); } i += c.len_utf8(); } r }
+'''
+
+
+def positions_lemma(run):
+    b = _sl.Source.get("src/braille.rs")
+    sp = bk.slices(run)
+    hbc = b.find("fn highlight_braille_chars")
+    run.uses(hbc)
+    body = prelude.STR_STUBS + prelude.PHF_MOCK + "\n".join(sp[k].text for k in ("is_highlighted", "highlight", "unhighlight", "UEB_PREFIXES", "i_start_nemeth", "i_start_ueb", "check_for_typeform")) + \
+        "\n" + hbc.text + HBC_HARNESS
+    cases = [("none", "⠁⠃⠉"), ("first", "⣁⠃⠉"), ("endpoints", "⠁⣃⣉"), ("last", "⠁⠃⣉"), ("after_indicator", "⠠⣁⠃⣉")]
+    case_text = "\n".join('HARNESS(highlight_positions_%s, 16, [str::find => hl_find, str::rfind => hl_rfind, str::starts_with => stubs::starts_with]) {\n'
+                          '    let fill = sym::bool();\n    let nemeth = sym::bool();\n    cover!(fill && nemeth, "fill range in Nemeth reachable");\n'
+                          '    check("%s", if nemeth { "Nemeth" } else { "UEB" }, fill);\n}' % c for c in cases)
+    crate = _kr.Crate("c20pos", body.replace("HBC_CASES", case_text), native_deps=prelude.PHF_NATIVE_DEP)
+    run.bound("K-C20-e", "5 literal braille strings (nothing / first / end points / last cell highlighted / highlighted start after an indicator) x {Nemeth, UEB} x fill_range; one harness per string")
+    run.assume("str::find / rfind with the `is_highlighted` function pattern stubbed by a char scan; starts_with stubbed; every path runs on a literal string")
+
+    def api(vals, out):
+        res = mcprobe([("pref", "BrailleCode UEB"), ("mathml", "<math><mn id='n'>2</mn><mo id='t'>&#x2062;</mo><mi id='x'>x</mi></math>"), ("braille", ""), ("setnav", "t 0"), "brpos"])
+        if any(r[0] != "OK" for r in res):
+            return True, {"results": res}
+        n = len(res[2][1])
+        s, e = [int(x) for x in res[4][1].split("\t")]
+        return not (s <= e <= n), {"script": "UEB 2(invisible times)x: navigation node = the invisible operator (no cell of its own); get_braille_position", "braille_cells": n, "position": [s, e]}
+    return crate, [dict(id="K-C20-e.highlight_positions." + c[0], harness="highlight_positions_" + c[0], api=api, role=lambda v, o: "position-outside-braille",
+                        covers=["fill range in Nemeth reachable"],
+                        claim="start <= end <= number of cells; end = last cell with dots 7-8; nothing highlighted => (0, length)") for c in cases]
